@@ -10,19 +10,34 @@ fn stub_format(_a: std::fmt::Arguments<'_>) -> String {
 
 //@ tier: quick
 //@ functions: arrow_buffer::BooleanBuffer::{bitand_assign, bitor_assign, bitwise_bin_op_assign}, Buffer::into_mutable, apply_bitwise_binary_op, from_bitwise_binary_op
-//@ bound: 2-byte masks, left operand a 9..=12-bit view at bit offset 2..=3 that is either uniquely owned or shared with a second live handle; `&=` with an arbitrary right operand at bit offset 1 (operand offsets equal mod 64 select the u64-aligned fast path, which exceeds the memory cap and is outside the claim): the result equals the pure op per index, and the other handle (if any) still reads its original bits (in place only when unique); unwind 8
+//@ bound: 2-byte masks, left operand a 12-bit view at bit offset 3 that is shared with a second live handle (the unique case is c16_bitand_assign_in_place_when_unique); `&=` with an arbitrary right operand at bit offset 1 (operand offsets equal mod 64 select the u64-aligned fast path, which exceeds the memory cap and is outside the claim): the result equals the pure op per index, and the other handle (if any) still reads its original bits (in place only when unique); unwind 8
 //@ stub: alloc::fmt::format -> empty String
 #[kani::proof]
 #[kani::unwind(8)]
 #[kani::stub(alloc::fmt::format, stub_format)]
 fn c16_bitand_assign_never_mutates_shared() {
+    bitand_assign_model(true);
+}
+
+//@ tier: quick
+//@ timeout: 900
+//@ functions: arrow_buffer::BooleanBuffer::{bitand_assign, bitwise_bin_op_assign} on a uniquely owned buffer (in-place path: Buffer::into_mutable + apply_bitwise_binary_op)
+//@ bound: as c16_bitand_assign_never_mutates_shared with a unique left operand: the in-place result equals the pure AND per index; unwind 8
+//@ stub: alloc::fmt::format -> empty String
+#[kani::proof]
+#[kani::unwind(8)]
+#[kani::stub(alloc::fmt::format, stub_format)]
+fn c16_bitand_assign_in_place_when_unique() {
+    bitand_assign_model(false);
+}
+
+fn bitand_assign_model(shared: bool) {
     let l: [u8; 2] = kani::any();
     let r: [u8; 2] = kani::any();
     let off: usize = kani::any();
     let len: usize = kani::any();
-    kani::assume(off >= 2 && off <= 3 && len >= 9 && len <= 12);
+    kani::assume(off == 3 && len == 12); // concrete sizes: the allocating fallback path needs concrete lengths (DESIGN 10.2)
     let lb = Buffer::from_vec(l.to_vec());
-    let shared: bool = kani::any();
     let alias = if shared { Some(lb.clone()) } else { None };
     let mut left = BooleanBuffer::new(lb, off, len);
     let right = BooleanBuffer::new(Buffer::from_vec(r.to_vec()), 1, len);
@@ -41,6 +56,47 @@ fn c16_bitand_assign_never_mutates_shared() {
     }
     std::mem::forget(left);
     std::mem::forget(right);
-    kani::cover!(shared);
-    kani::cover!(!shared && off == 3);
+    kani::cover!(lbit && rbit);
+    kani::cover!(lbit && !rbit);
+}
+
+use std::ptr::NonNull;
+use std::sync::Arc;
+
+struct Region {
+    mem: [u8; 2],
+}
+
+//@ tier: quick
+//@ timeout: 900
+//@ functions: arrow_buffer::BooleanBuffer::{bitand_assign, bitor_assign, bitwise_bin_op_assign} on memory owned by a custom Allocation (Buffer::from_custom_allocation), Buffer::into_mutable
+//@ bound: 2-byte region owned by a custom Allocation whose owner is still alive, wrapped in ONE arrow Buffer handle (Arc strong count 1); left operand a 12-bit view at bit offset 3, right operand arbitrary at bit offset 1; `&=` or `|=`: the owner's bytes are unchanged afterwards (a custom-owned region is never mutated in place) and the result equals the pure op per index; unwind 8
+//@ stub: alloc::fmt::format -> empty String
+#[kani::proof]
+#[kani::unwind(8)]
+#[kani::stub(alloc::fmt::format, stub_format)]
+fn c16_bit_assign_never_writes_custom_owned_memory() {
+    let l: [u8; 2] = kani::any();
+    let r: [u8; 2] = kani::any();
+    let owner = Arc::new(Region { mem: l });
+    let ptr = NonNull::new(owner.mem.as_ptr() as *mut u8).unwrap();
+    let lb = unsafe { Buffer::from_custom_allocation(ptr, 2, owner.clone()) };
+    let mut left = BooleanBuffer::new(lb, 3, 12);
+    let right = BooleanBuffer::new(Buffer::from_vec(r.to_vec()), 1, 12);
+    let or: bool = kani::any();
+    if or {
+        left |= &right;
+    } else {
+        left &= &right;
+    }
+    assert!(owner.mem[0] == l[0] && owner.mem[1] == l[1], "memory behind a live custom owner is never written");
+    let i: usize = kani::any();
+    kani::assume(i < 12);
+    let lbit = (l[(3 + i) / 8] >> ((3 + i) % 8)) & 1 == 1;
+    let rbit = (r[(1 + i) / 8] >> ((1 + i) % 8)) & 1 == 1;
+    assert!(left.value(i) == if or { lbit || rbit } else { lbit && rbit }, "result = pure op");
+    kani::cover!(or && !lbit && rbit, "a bit that an in-place OR would have set");
+    kani::cover!(!or && lbit && !rbit, "a bit that an in-place AND would have cleared");
+    std::mem::forget(left);
+    std::mem::forget(right);
 }
